@@ -5,7 +5,7 @@
 From Coq Require Import List NArith ZArith Bool Arith Lia.
 From Common Require Import Bytes Outcome.
 From Gen Require Import C12.
-From C12 Require Import Codec Util Model Proofs_hmtx.
+From C12 Require Import Codec Util Model Model2 Model3 Proofs_hmtx Proofs_tables Proofs_derived.
 Import ListNotations.
 
 Local Open Scope Z_scope.
@@ -113,6 +113,19 @@ Theorem hhea_definitions_are_extrema :
 Proof. exact hhea_definitions_extrema_gen. Qed.
 Print Assumptions hhea_definitions_are_extrema.
 
+(* whatever Decode accepts (with at least one glyph) re-encodes and decodes to
+   the same Info: bytes -> Info -> bytes -> Info is stable *)
+Theorem hmtx_decode_fixpoint :
+  forall (hhea hm : list N) (d : dinfo) (ws ls : list Z),
+    Bytes hhea -> Bytes hm ->
+    M_hmtx_decode hhea (Some hm) = Ok d -> d_widths d = Some ws -> d_lsb d = Some ls ->
+    let i := mkHinfo (Some ws) None (Some ls) (d_ascent d) (d_descent d) (d_linegap d) (d_caretoffset d) in
+    exists hhea' hm',
+      M_hmtx_encode i (d_rise d) (d_run d) = Ok (hhea', Some hm') /\
+      M_hmtx_decode hhea' (Some hm') = Ok d.
+Proof. exact hmtx_decode_fixpoint_gen. Qed.
+Print Assumptions hmtx_decode_fixpoint.
+
 (* Encode's hhea table has the length the Go constant hheaLength says *)
 Theorem hhea_has_hheaLength :
   forall i rise run a b c d nl, length (hhea_bytes i rise run a b c d nl) = hmtx_hheaLength.
@@ -125,3 +138,232 @@ Theorem hmtx_decode_total :
     M_hmtx_decode hhea hm <> Panic /\ M_hmtx_decode hhea hm <> OutOfFuel.
 Proof. exact hmtx_decode_safe. Qed.
 Print Assumptions hmtx_decode_total.
+
+(* ================================================================== *)
+(* head: timestamps                                                    *)
+
+(* Timestamps survive to the second: for every time whose Unix seconds fit
+   int64 (nanoseconds arbitrary, the zero Time included) except the single
+   second 1904-01-01T00:00:00Z, decodeTime (encodeTime t) is t truncated to the
+   second.  zeroTime is the constant of head/time.go. *)
+Theorem time_roundtrip :
+  forall t : gotime,
+    I64 (t_sec t) -> t_sec t <> head_zeroTime ->
+    M_decodeTime (M_encodeTime t) = mkTime (t_sec t) 0.
+Proof. exact time_roundtrip_sec. Qed.
+Print Assumptions time_roundtrip.
+
+(* the excluded second is lost (open finding c12-head-time-1904-epoch-reads-as-unset) *)
+Theorem time_roundtrip_1904_refuted :
+  exists t : gotime, I64 (t_sec t) /\ t_nsec t = 0%N /\ M_decodeTime (M_encodeTime t) <> t.
+Proof. exists (mkTime head_zeroTime 0). vm_compute. repeat split; congruence. Qed.
+Print Assumptions time_roundtrip_1904_refuted.
+
+(* every stored value decodes to a time that re-encodes and decodes to itself *)
+Theorem time_decode_fixpoint :
+  forall x : Z, I64 x -> M_decodeTime (M_encodeTime (M_decodeTime x)) = M_decodeTime x.
+Proof. intros x Hx. apply Proofs_tables.time_roundtrip. now apply time_decode_ok. Qed.
+Print Assumptions time_decode_fixpoint.
+
+(* ================================================================== *)
+(* head                                                                *)
+
+(* head.Info survives Encode/Read exactly: all 2^8 combinations of the flag
+   and style booleans (any values of the bool fields), font revision,
+   unitsPerEm (any uint16: the code has no range check), bounding box, lowest
+   PPEM, indexToLocFormat, and both timestamps as in time_roundtrip. *)
+Theorem head_roundtrip :
+  forall i : head_info, head_nf i -> M_head_decode (M_head_encode i) = Ok i.
+Proof. exact head_roundtrip_gen. Qed.
+Print Assumptions head_roundtrip.
+
+(* whatever Read accepts is in that normal form, hence a fixed point *)
+Theorem head_decode_fixpoint :
+  forall (b : list N) (i : head_info),
+    Bytes b -> M_head_decode b = Ok i -> head_nf i /\ M_head_decode (M_head_encode i) = Ok i.
+Proof. intros b i Hb H. pose proof (head_decode_nf b i Hb H). split; [assumption|now apply head_roundtrip_gen]. Qed.
+Print Assumptions head_decode_fixpoint.
+
+Theorem head_has_headLength : forall i, length (M_head_encode i) = head_headLength.
+Proof. exact head_encode_length. Qed.
+
+Theorem head_decode_total :
+  forall b : list N, M_head_decode b <> Panic /\ M_head_decode b <> OutOfFuel.
+Proof. exact head_decode_safe. Qed.
+Print Assumptions head_decode_total.
+
+(* ================================================================== *)
+(* maxp                                                                *)
+
+Theorem maxp_roundtrip :
+  forall i : maxp_info, maxp_nf i -> exists b, M_maxp_encode i = Ok b /\ M_maxp_decode b = Ok i.
+Proof. exact maxp_roundtrip_gen. Qed.
+Print Assumptions maxp_roundtrip.
+
+Theorem maxp_decode_fixpoint :
+  forall (b : list N) (i : maxp_info),
+    Bytes b -> M_maxp_decode b = Ok i ->
+    maxp_nf i /\ exists b', M_maxp_encode i = Ok b' /\ M_maxp_decode b' = Ok i.
+Proof. intros b i Hb H. pose proof (maxp_decode_nf b i Hb H). split; [assumption|now apply maxp_roundtrip_gen]. Qed.
+Print Assumptions maxp_decode_fixpoint.
+
+Theorem maxp_decode_total :
+  forall b : list N, M_maxp_decode b <> Panic /\ M_maxp_decode b <> OutOfFuel.
+Proof. exact maxp_decode_safe. Qed.
+Print Assumptions maxp_decode_total.
+
+(* ================================================================== *)
+(* post header                                                         *)
+
+(* italic angle (as the 16.16 number the table stores), underline position
+   and thickness, isFixedPitch survive, for each version Encode writes and
+   whatever follows the 32-byte header *)
+Theorem post_header_roundtrip :
+  forall (version : N) (h : post_hdr) (rest : list N),
+    post_nf h -> U32 version ->
+    M_post_decode_header (M_post_encode_header version h ++ rest) = post_result_of version h.
+Proof. exact post_roundtrip_gen. Qed.
+Print Assumptions post_header_roundtrip.
+
+Theorem post_header_decode_total :
+  forall b : list N, M_post_decode_header b <> Panic /\ M_post_decode_header b <> OutOfFuel.
+Proof. exact post_decode_safe. Qed.
+Print Assumptions post_header_decode_total.
+
+(* ================================================================== *)
+(* OS/2                                                                *)
+
+(* weight / width class, the style bits (regular excludes bold and italic),
+   the permission value and the two permission flags, first / last character,
+   typographic and Windows ascent / descent, line gap, cap height and x-height
+   (non-negative), average width, sub/superscript and strikeout metrics, family
+   class, PANOSE, vendor tag, Unicode ranges (bit 57 tied to lastCharIndex =
+   0xFFFF) and code page ranges survive Encode/Read exactly *)
+Theorem os2_roundtrip :
+  forall i : os2_info, os2_nf i -> M_os2_decode (M_os2_encode i) = Ok i.
+Proof. exact os2_roundtrip_gen. Qed.
+Print Assumptions os2_roundtrip.
+
+(* whatever Read accepts, under any table version 0..5 and any of the three
+   table lengths, is in the normal form, hence a fixed point *)
+Theorem os2_decode_fixpoint :
+  forall (b : list N) (i : os2_info),
+    Bytes b -> M_os2_decode b = Ok i -> os2_nf i /\ M_os2_decode (M_os2_encode i) = Ok i.
+Proof. intros b i Hb H. pose proof (os2_decode_nf b i Hb H). split; [assumption|now apply os2_roundtrip_gen]. Qed.
+Print Assumptions os2_decode_fixpoint.
+
+Theorem os2_decode_total :
+  forall b : list N, M_os2_decode b <> Panic /\ M_os2_decode b <> OutOfFuel.
+Proof. exact os2_decode_safe. Qed.
+Print Assumptions os2_decode_total.
+
+(* ================================================================== *)
+(* derived fields of the writer (write.go, font.go)                    *)
+
+(* FontBBox is the union of the non-empty glyph boxes: for glyph boxes with
+   xMin <= xMax and yMin <= yMax, Font.FontBBox() equals the rectangle whose
+   corners are the componentwise minimum / maximum over the glyphs whose box is
+   not the zero rectangle, and the zero rectangle when there is none. *)
+Theorem fontbbox_union :
+  forall boxes : list rect,
+    Forall proper boxes ->
+    M_fontbbox boxes = S_fontbbox boxes /\
+    (nonempty_boxes boxes = [] -> S_fontbbox boxes = zero_rect) /\
+    (nonempty_boxes boxes <> [] ->
+       is_min_of (llx (S_fontbbox boxes)) (map llx (nonempty_boxes boxes)) /\
+       is_min_of (lly (S_fontbbox boxes)) (map lly (nonempty_boxes boxes)) /\
+       is_max_of (urx (S_fontbbox boxes)) (map urx (nonempty_boxes boxes)) /\
+       is_max_of (ury (S_fontbbox boxes)) (map ury (nonempty_boxes boxes))).
+Proof. intros boxes H. split; [now apply fontbbox_union_gen|apply S_fontbbox_extrema]. Qed.
+Print Assumptions fontbbox_union.
+
+(* the properness hypothesis cannot be dropped (boxes with xMin > xMax can only
+   come from malformed glyf data) *)
+Theorem fontbbox_union_improper_refuted : exists boxes, M_fontbbox boxes <> S_fontbbox boxes.
+Proof. exact fontbbox_improper_refuted. Qed.
+
+(* xAvgCharWidth: with s the sum and c the number of the positive advance
+   widths, the value is 0 when c = 0 and otherwise (s + c/2) / c, which is the
+   average s/c rounded to the nearest integer: |c*avg - s| <= c/2. *)
+Theorem avg_width_def :
+  forall ws : list Z,
+    let s := list_sum (positive_widths ws) in
+    let c := Z.of_nat (length (positive_widths ws)) in
+    (c = 0 -> M_avgwidth ws = 0) /\
+    (0 < c -> M_avgwidth ws = (s + c / 2) / c /\
+              2 * s - c <= 2 * (c * M_avgwidth ws) <= 2 * s + c).
+Proof. exact avg_width_gen. Qed.
+Print Assumptions avg_width_def.
+
+(* usFirstCharIndex / usLastCharIndex: the least / greatest code point of the
+   cmap subtable (format 4 or 12, in whatever order the map is iterated),
+   clamped to 0xFFFF *)
+Theorem first_last_char_def :
+  forall codes : list Z,
+    codes <> [] -> Forall (fun k => 0 <= k <= 2147483647) codes ->
+    M_firstlast (Some (M_coderange4 codes)) =
+      (Z.min (list_min 0 codes) 65535, Z.min (list_max 0 codes) 65535) /\
+    M_firstlast (Some (M_coderange12 codes)) =
+      (Z.min (list_min 0 codes) 65535, Z.min (list_max 0 codes) 65535).
+Proof. exact first_last_gen. Qed.
+Print Assumptions first_last_char_def.
+
+(* isFixedPitch: true iff there is at least one glyph and all non-zero advance
+   widths are equal *)
+Theorem fixed_pitch_def :
+  forall ws : list Z, M_fixedpitch ws = true <-> ws <> [] /\ all_equal_nonzero ws.
+Proof. exact fixed_pitch_gen. Qed.
+Print Assumptions fixed_pitch_def.
+
+(* all fields Font.Write derives, at once: for a font with 1..65535 glyphs,
+   proper Int16 boxes, non-negative Int16 integer widths, representable right
+   side bearings and a cmap with at least one code point, the written
+   maxp.numGlyphs, head.FontBBox, hhea aggregates and numberOfHMetrics, OS/2
+   average width, first / last character, winAscent / winDescent and
+   post.isFixedPitch are the definitions. *)
+Theorem writer_derived_fields :
+  forall (boxes : list rect) (ws : list Z) (cm : cmap_kind),
+    length boxes = length ws -> (1 <= length ws)%nat ->
+    (N.of_nat (length ws) <= 65535)%N ->
+    Forall proper boxes -> Forall rect_ok_i16 boxes ->
+    Forall (fun w => 0 <= w) ws -> Forall I16 ws ->
+    Forall I16 (map rsb_of (nonempty_zip boxes (combine ws (map llx boxes)))) ->
+    cmap_ok cm ->
+    M_derived boxes ws cm =
+      Ok (mkDerived (Z.of_nat (length boxes)) (S_fontbbox boxes)
+                    (S_advmax ws) (S_minlsb boxes (map llx boxes))
+                    (S_minrsb boxes ws (map llx boxes)) (S_xmaxext boxes (map llx boxes))
+                    (N.of_nat (M_numLong ws))
+                    (wrap_i16 (M_avgwidth ws)) (fst (first_last_of cm)) (snd (first_last_of cm))
+                    (ury (S_fontbbox boxes)) (wrap_i16 (- lly (S_fontbbox boxes)))
+                    (M_fixedpitch ws)).
+Proof. exact derived_gen. Qed.
+Print Assumptions writer_derived_fields.
+
+(* ================================================================== *)
+(* head.Version (P2)                                                   *)
+
+Theorem version_round_idempotent :
+  forall v : N, M_version_round (M_version_round v) = M_version_round v.
+Proof. exact version_round_idempotent_gen. Qed.
+Print Assumptions version_round_idempotent.
+
+(* Round removes exactly what String() does not show: the rounded value prints
+   the same thousandths as v (ties to even, as fmt does), these are the
+   thousandths nearest to v/65536, and the rounded value is the 16.16 number
+   nearest to them (= VersionFromString of the printed text) *)
+Theorem version_round_keeps_string :
+  forall v : N,
+    version_milli_string (M_version_round v) = version_milli_string v /\
+    M_version_round v = version_of_milli (version_milli_string v) /\
+    (2 * 65536 * version_milli_string v <= 2 * 1000 * v + 65536)%N /\
+    (2 * 1000 * v <= 2 * 65536 * version_milli_string v + 65536)%N.
+Proof. intros v. split; [apply version_round_milli|split; [reflexivity|apply version_milli_nearest]]. Qed.
+Print Assumptions version_round_keeps_string.
+
+(* with the half-up thousandth of the code before fixes/C12-version-round-ties.diff
+   the printed value changed at ties (v = 4096: "0.062" became "0.063") *)
+Theorem version_round_half_up_refuted :
+  exists v, version_milli_half_up v <> version_milli_string v /\
+            version_of_milli (version_milli_half_up v) <> version_of_milli (version_milli_string v).
+Proof. exact version_round_ties_refuted. Qed.
